@@ -500,9 +500,11 @@ class VeritImpliesMacro(Macro):
 
     def eval(self, args, prevs):
         # goal : ~a | b  pt: |- a --> b
+        if len(args) != 2 or len(prevs) != 1:
+            raise VeriTException("implies", "must have two literals and a single premise")
         goal = Or(*args)
         pt = prevs[0]
-        if Or(Not(pt.prop.arg1), pt.prop.arg) == goal:
+        if pt.prop.is_implies() and Not(pt.prop.arg1) == args[0] and pt.prop.arg == args[1]:
             return Thm(goal, pt.hyps)
         else:
             raise VeriTException("implies", "unexpected goal %s" % goal)
